@@ -26,6 +26,8 @@ def run_property(prop, tier, root, out_dir=None, quiet=False, only_rules=None):
     run = report.Run(prop, tier, root)
     run.only_rules = only_rules
     run.aborted = None
+    # what the analysed view of the program is: helpers absent from the pinned tree are analysed inlined (vf/inline.py)
+    run.notes["transparent_helpers_inlined"] = {k: v for k, v in getattr(prog, "inlined", {}).items()}
     try:
         runner.run_checks(prop, prog, run)
     except model.AnalysisError as e:
